@@ -68,6 +68,9 @@ def c_resolve(P):
         is_mod = P.resolve_cls(p) == "Module"
         same = z3.And(name.z == pname, not is_mod)
         if rec:
+            # "enclosing class body, then module globals": the body of a class nested in another class does not see that class's names (known finding C04-F1)
+            P.prove("a_nested_class_body_does_not_see_the_names_of_the_enclosing_class", not (P.resolve_cls(scope) == "Class" and P.resolve_cls(p) == "Class"),
+                    scope=P.resolve_cls(scope), parent=P.resolve_cls(p))
             P.prove("recursion_into_the_parent_scope_with_the_same_name", rec[0][0] is p and zstr(rec[0][1]).sexpr() == name.z.sexpr() and len(rec) == 1)
             P.prove("enclosing_non_module_scope_named_like_the_name_is_returned_directly", z3.Not(same))
             P.prove("result_is_the_parents_answer", zstr(res).sexpr() == z3.Function("RESOLVE", IntS, StrS, StrS)(p.ident, name.z).sexpr())
